@@ -66,15 +66,15 @@ func triDef(v int, def bool) bool {
 }
 
 // effective values after documented defaults (the model's view; written from the documentation, not from SetDefaults)
-func (k Knobs) pushOn() bool        { return triDef(k.Push, true) }
-func (k Knobs) deleteOn() bool      { return triDef(k.Delete, false) }
-func (k Knobs) blobDeleteOn() bool  { return k.deleteOn() && triDef(k.BlobDelete, false) }
-func (k Knobs) referrerOn() bool    { return triDef(k.Referrer, true) }
-func (k Knobs) readOnly() bool      { return triDef(k.ReadOnly, false) }
-func (k Knobs) untagged() bool      { return triDef(k.Untagged, false) }
-func (k Knobs) emptyRepo() bool     { return triDef(k.EmptyRepo, true) }
-func (k Knobs) refDangling() bool   { return triDef(k.RefDangling, false) }
-func (k Knobs) refWithSubj() bool   { return triDef(k.RefWithSubj, true) }
+func (k Knobs) pushOn() bool       { return triDef(k.Push, true) }
+func (k Knobs) deleteOn() bool     { return triDef(k.Delete, false) }
+func (k Knobs) blobDeleteOn() bool { return k.deleteOn() && triDef(k.BlobDelete, false) }
+func (k Knobs) referrerOn() bool   { return triDef(k.Referrer, true) }
+func (k Knobs) readOnly() bool     { return triDef(k.ReadOnly, false) }
+func (k Knobs) untagged() bool     { return triDef(k.Untagged, false) }
+func (k Knobs) emptyRepo() bool    { return triDef(k.EmptyRepo, true) }
+func (k Knobs) refDangling() bool  { return triDef(k.RefDangling, false) }
+func (k Knobs) refWithSubj() bool  { return triDef(k.RefWithSubj, true) }
 func (k Knobs) manifestLimit() int64 {
 	if k.ManifestLimit <= 0 {
 		return 8 * 1024 * 1024
@@ -143,35 +143,35 @@ func (k Knobs) config(root string) config.Config {
 // object universe
 
 const (
-	mtOCIManifest = "application/vnd.oci.image.manifest.v1+json"
-	mtOCIIndex    = "application/vnd.oci.image.index.v1+json"
+	mtOCIManifest  = "application/vnd.oci.image.manifest.v1+json"
+	mtOCIIndex     = "application/vnd.oci.image.index.v1+json"
 	mtDockManifest = "application/vnd.docker.distribution.manifest.v2+json"
 	mtDockList     = "application/vnd.docker.distribution.manifest.list.v2+json"
-	mtOCIConfig   = "application/vnd.oci.image.config.v1+json"
-	mtOCILayer    = "application/vnd.oci.image.layer.v1.tar+gzip"
-	mtEmpty       = "application/vnd.oci.empty.v1+json"
+	mtOCIConfig    = "application/vnd.oci.image.config.v1+json"
+	mtOCILayer     = "application/vnd.oci.image.layer.v1.tar+gzip"
+	mtEmpty        = "application/vnd.oci.empty.v1+json"
 )
 
 // Obj is one piece of content a run may push. Manifests refer to other objects by index.
 type Obj struct {
-	Kind      string            `json:"kind"` // "blob", "image", "index", "raw"
-	Size      int               `json:"size,omitempty"`
-	Fill      uint32            `json:"fill,omitempty"`
-	Config    int               `json:"config,omitempty"`
-	Layers    []int             `json:"layers,omitempty"`
-	Children  []int             `json:"children,omitempty"`
-	Subject   int               `json:"subject"` // -1 none
-	SubjAlgo  string            `json:"subj_algo,omitempty"`
-	SubjFake  string            `json:"subj_fake,omitempty"` // subject digest that is no object (missing subject)
-	MT        string            `json:"mt,omitempty"`         // mediaType field inside the body ("" = omitted)
-	Shape     string            `json:"shape,omitempty"`      // "image" or "index": actual body shape (for raw JSON)
-	AT        string            `json:"at,omitempty"`         // artifactType
-	ConfigMT  string            `json:"config_mt,omitempty"`
-	Annot     map[string]string `json:"annot,omitempty"`
-	RefAlgo   string            `json:"ref_algo,omitempty"` // algorithm with which this manifest refers to its parts
-	Raw       string            `json:"raw,omitempty"`      // literal body for kind "raw"
-	Pad       int               `json:"pad,omitempty"`      // trailing whitespace bytes
-	DescMT    string            `json:"desc_mt,omitempty"`
+	Kind     string            `json:"kind"` // "blob", "image", "index", "raw"
+	Size     int               `json:"size,omitempty"`
+	Fill     uint32            `json:"fill,omitempty"`
+	Config   int               `json:"config,omitempty"`
+	Layers   []int             `json:"layers,omitempty"`
+	Children []int             `json:"children,omitempty"`
+	Subject  int               `json:"subject"` // -1 none
+	SubjAlgo string            `json:"subj_algo,omitempty"`
+	SubjFake string            `json:"subj_fake,omitempty"` // subject digest that is no object (missing subject)
+	MT       string            `json:"mt,omitempty"`        // mediaType field inside the body ("" = omitted)
+	Shape    string            `json:"shape,omitempty"`     // "image" or "index": actual body shape (for raw JSON)
+	AT       string            `json:"at,omitempty"`        // artifactType
+	ConfigMT string            `json:"config_mt,omitempty"`
+	Annot    map[string]string `json:"annot,omitempty"`
+	RefAlgo  string            `json:"ref_algo,omitempty"` // algorithm with which this manifest refers to its parts
+	Raw      string            `json:"raw,omitempty"`      // literal body for kind "raw"
+	Pad      int               `json:"pad,omitempty"`      // trailing whitespace bytes
+	DescMT   string            `json:"desc_mt,omitempty"`
 
 	data []byte
 	dig  map[string]string
@@ -316,8 +316,8 @@ func materialise(objs []*Obj) {
 
 // parsed view of a manifest body, computed by the model's own JSON parse (independent of olareg/types)
 type manView struct {
-	ok       bool     // a JSON object
-	shape    string   // "image", "index", "both", "" (neither): taken narrowly
+	ok       bool   // a JSON object
+	shape    string // "image", "index", "both", "" (neither): taken narrowly
 	mt       string
 	at       string
 	configMT string
@@ -414,35 +414,35 @@ func (v manView) under(mt string) manView {
 
 // Op is one symbolic client operation. Fields are interpreted per kind (see verif_exec_test.go).
 type Op struct {
-	K     string   `json:"k"`
-	Repo  int      `json:"r,omitempty"`
-	Obj   int      `json:"o,omitempty"`
-	Tag   string   `json:"tag,omitempty"`
-	Algo  string   `json:"algo,omitempty"`  // digest algorithm for by-digest addressing / creation
-	Algo2 string   `json:"algo2,omitempty"` // algorithm at completion
-	Mode  string   `json:"mode,omitempty"`
+	K      string  `json:"k"`
+	Repo   int     `json:"r,omitempty"`
+	Obj    int     `json:"o,omitempty"`
+	Tag    string  `json:"tag,omitempty"`
+	Algo   string  `json:"algo,omitempty"`  // digest algorithm for by-digest addressing / creation
+	Algo2  string  `json:"algo2,omitempty"` // algorithm at completion
+	Mode   string  `json:"mode,omitempty"`
 	Chunks []int   `json:"chunks,omitempty"`
-	Decl  string   `json:"decl,omitempty"` // declared digest variant
-	From  int      `json:"from,omitempty"`
-	FromS string   `json:"from_s,omitempty"`
-	CT    string   `json:"ct,omitempty"`
-	QD    string   `json:"qd,omitempty"`
-	Len   string   `json:"len,omitempty"` // "known" | "unknown"
-	Head  bool     `json:"head,omitempty"`
+	Decl   string  `json:"decl,omitempty"` // declared digest variant
+	From   int     `json:"from,omitempty"`
+	FromS  string  `json:"from_s,omitempty"`
+	CT     string  `json:"ct,omitempty"`
+	QD     string  `json:"qd,omitempty"`
+	Len    string  `json:"len,omitempty"` // "known" | "unknown"
+	Head   bool    `json:"head,omitempty"`
 	Accept string  `json:"accept,omitempty"`
-	Range string   `json:"range,omitempty"`
-	N     string   `json:"n,omitempty"`
-	Last  string   `json:"last,omitempty"`
+	Range  string  `json:"range,omitempty"`
+	N      string  `json:"n,omitempty"`
+	Last   string  `json:"last,omitempty"`
 	Filter string  `json:"filter,omitempty"`
-	Ms    int64    `json:"ms,omitempty"`
-	Sess  int      `json:"sess,omitempty"`
-	Act   string   `json:"act,omitempty"`
-	Off   string   `json:"off,omitempty"`   // offset variant: "ok","stale","future","bad","none"
-	State string   `json:"state,omitempty"` // state variant
-	A     int      `json:"a,omitempty"`
-	B     int      `json:"b,omitempty"`
-	S     string   `json:"s,omitempty"`
-	Raw   *RawReq  `json:"raw,omitempty"`
+	Ms     int64   `json:"ms,omitempty"`
+	Sess   int     `json:"sess,omitempty"`
+	Act    string  `json:"act,omitempty"`
+	Off    string  `json:"off,omitempty"`   // offset variant: "ok","stale","future","bad","none"
+	State  string  `json:"state,omitempty"` // state variant
+	A      int     `json:"a,omitempty"`
+	B      int     `json:"b,omitempty"`
+	S      string  `json:"s,omitempty"`
+	Raw    *RawReq `json:"raw,omitempty"`
 }
 
 // RawReq is a literal request (C15 fuzzing).
